@@ -102,6 +102,8 @@ type Input struct {
 	Win *WinIn `json:"win,omitempty"`
 	// hk: one hook with bindings of several types that may share names, several executions (hk.go)
 	Hk *HkIn `json:"hk,omitempty"`
+	// rl: a history with watch outages (relist.go); the history is DynOps (so that a failing case is shortened)
+	Rl *RlIn `json:"rl,omitempty"`
 }
 
 type UpdCtxObs struct {
@@ -551,6 +553,8 @@ func Run(in Input) Obs {
 		return runWin(*in.Win)
 	case in.Hk != nil:
 		return runHk(*in.Hk)
+	case in.Rl != nil:
+		return runRl(*in.Rl, in.DynOps)
 	}
 	return Obs{Note: "empty input"}
 }
@@ -647,6 +651,8 @@ func Render(in Input, obs *Obs, crash string) core.Case {
 		renderWin(*in.Win, o, bad, &c)
 	case in.Hk != nil:
 		renderHk(*in.Hk, o, bad, &c)
+	case in.Rl != nil:
+		renderRl(*in.Rl, in.DynOps, o, bad, &c)
 	}
 	return c
 }
@@ -780,17 +786,24 @@ func Gen(r *core.Rng, tier string) ([]core.In[Input], bool) {
 	winCorpus(add)
 	hkCorpus(add)
 	hkSystematic(add)
+	rlCorpus(add)
 	nSnap, nUpd, nDyn, nWin := 120, 300, 100, 100
 	nHk := 150
+	nRl := 40 // an outage costs a reflector back-off (0.8 s and more)
+	var exh []core.In[Input]
 	switch tier {
 	case "thorough":
 		nSnap, nUpd, nDyn, nWin = 2000, 20000, 2500, 2500
 		nHk = 5000
+		nRl = 800
+		rlExhaustive(func(in Input, s string) { exh = append(exh, core.In[Input]{Input: in, Stream: s}) })
 	case "search":
 		nSnap, nUpd, nDyn, nWin = 300, 2000, 400, 400
 		nHk = 500
+		nRl = 120
 	}
 	everyHk := nUpd / nHk
+	everyRl := nUpd / nRl
 	for i := 0; i < nSnap; i++ {
 		s := genSnap(r, 3+r.Intn(10))
 		add(Input{Snap: &s}, "snap")
@@ -808,6 +821,13 @@ func Gen(r *core.Rng, tier string) ([]core.In[Input], bool) {
 		if i%everyWin == 0 && i/everyWin < nWin {
 			w := genWin(r)
 			add(Input{Win: &w}, "win")
+		}
+		if i%everyRl == 0 && i/everyRl < nRl {
+			rl, ops := genRl(r)
+			add(Input{Rl: &rl, DynOps: ops}, "relist")
+			if k := i / everyRl; k < len(exh) { // the exhaustive family (thorough) spread over the workers, too
+				ins = append(ins, exh[k])
+			}
 		}
 		if i%every == 0 && i/every < nDyn {
 			d, ops := genDyn(r, 3+r.Intn(12))
@@ -833,7 +853,7 @@ func Gen(r *core.Rng, tier string) ([]core.In[Input], bool) {
 }
 
 var Driver = core.Driver[Input, Obs]{
-	Spec: core.Spec{Property: "C02", Imports: []string{"C02_Model", "C02_Spec", "C02_Comp", "C02_CompSpec", "C02_Win", "C02_WinSpec", "C02_Hook", "C02_HookSpec", "C02_Corr"}, Corr: "C02_Corr", Triggers: []string{"F25", "F26", "F32", "F31"}, ShrinkKey: "dyn_ops",
-		Rule: "snap: a real monitor on a fake cluster (static namespaces / all namespaces, nameSelector with repeated entries, initial objects, with and without jqFilter .data, keepFullObjectsInMemory true/false; object content = a part the filter selects + a label outside it, 35% of modifications touch only the latter) follows generated create/modify/delete histories over 3 namespaces x 3 names, Snapshot() at quiescence and after a restart compared entry by entry (identity, filterResult, object) with the matching objects of the cluster; upd: the real HookController.UpdateSnapshots over a reader that answers differently on every call, random include topologies and context arrays; grp: a real hook config with two kubernetes bindings sharing a group, named and unnamed (trigger F25); one ghost scenario (trigger F26); dyn: a real monitor with namespace.labelSelector (matchLabels or matchExpressions; its REAL namespace informer on the fake cluster, whose Namespace objects are kept equal to what a label-filtered watch shows; with and without nameSelector / jqFilter / keepFullObjectsInMemory) follows generated histories over 3 namespaces x 3 names of object create/modify/delete (objects moving between namespaces), namespaces created with or without the label / gaining or losing it / deleted (with their objects left behind, or deleted too), changes that keep a namespace matching, and operator restarts; namespaces matching at the start, at a restart and only later all stop matching and match again; Snapshot() at every read point (1-5 per history) compared entry by entry with the objects of the namespaces that match THEN; two histories in five run beside a companion binding of the same kind and names with static namespaces (created before or after the first binding's monitor, also at restarts; same or different debug name; its informers share the first binding's shared informers of the factory store), whose snapshot at every read point is compared entry by entry with the objects of ITS namespaces (C02_Comp / C02_CompSpec.P_comp); fixed corpus of 13 such histories; failing dyn histories are shortened; win: the START WINDOW of a monitor (C02_Win): a real monitor is created on the fake cluster (CreateInformers / loadExistedObjects), the cluster is changed (1-8 operations: objects modified inside and outside what the jqFilter selects, deleted and re-created with other content, created, rarely deleted for good = trigger F26), then the monitor is started (the shared informers' own list, OnAdd with isInInitialList, and watch), in 55% of the cases nothing happens afterwards; static bindings (named / all namespaces, nameSelector, repeated entries) and namespace.labelSelector bindings (labelled and unlabelled namespaces), at an operator start and at a restart (35%: a previous monitor has followed a first part of the history and was cancelled); Snapshot() at quiescence compared entry by entry with the matching objects of the final cluster (C02_WinSpec.P_win); fixed corpus of 11 windows; hk: ONE HOOK with bindings of different types (kubernetes, schedule, kubernetesValidating, kubernetesMutating) that may share names (the configuration demands unique names within one type only; a validating and a mutating binding of one name are not generated: they share a webhook id, the recorded finding F31, C02_hook_refuted_vm), each with its own includeSnapshotsFrom and group: a real v1 configuration loaded by hook.LoadConfig, a real HookController on a fake cluster with real schedule and admission managers; several executions in one process in every order, the contexts built by the real binding controllers (Synchronization / Event, Schedule, admission events), each execution one UpdateSnapshots call; per execution and context the keys of snapshots, whose objects each list and the objects field show, compared with the binding of the TYPE and name of the context (C02_HookSpec.P_hk); systematic family (5 pairs of types x 3 ways the lists differ x 4 orders) + random hooks (1-3 kubernetes bindings, 0-4 others, 1-4 executions of 1-3 contexts) + corpus of 3; non-trivial = >=3 cluster operations or >=2 contexts; distinct by input"},
+	Spec: core.Spec{Property: "C02", Imports: []string{"C02_Model", "C02_Spec", "C02_Comp", "C02_CompSpec", "C02_Win", "C02_WinSpec", "C02_Hook", "C02_HookSpec", "C02_Relist", "C02_RelistSpec", "C02_Corr"}, Corr: "C02_Corr", Triggers: []string{"F25", "F26", "F32", "F31"}, ShrinkKey: "dyn_ops",
+		Rule: "snap: a real monitor on a fake cluster (static namespaces / all namespaces, nameSelector with repeated entries, initial objects, with and without jqFilter .data, keepFullObjectsInMemory true/false; object content = a part the filter selects + a label outside it, 35% of modifications touch only the latter) follows generated create/modify/delete histories over 3 namespaces x 3 names, Snapshot() at quiescence and after a restart compared entry by entry (identity, filterResult, object) with the matching objects of the cluster; upd: the real HookController.UpdateSnapshots over a reader that answers differently on every call, random include topologies and context arrays; grp: a real hook config with two kubernetes bindings sharing a group, named and unnamed (trigger F25); one ghost scenario (trigger F26); dyn: a real monitor with namespace.labelSelector (matchLabels or matchExpressions; its REAL namespace informer on the fake cluster, whose Namespace objects are kept equal to what a label-filtered watch shows; with and without nameSelector / jqFilter / keepFullObjectsInMemory) follows generated histories over 3 namespaces x 3 names of object create/modify/delete (objects moving between namespaces), namespaces created with or without the label / gaining or losing it / deleted (with their objects left behind, or deleted too), changes that keep a namespace matching, and operator restarts; namespaces matching at the start, at a restart and only later all stop matching and match again; Snapshot() at every read point (1-5 per history) compared entry by entry with the objects of the namespaces that match THEN; two histories in five run beside a companion binding of the same kind and names with static namespaces (created before or after the first binding's monitor, also at restarts; same or different debug name; its informers share the first binding's shared informers of the factory store), whose snapshot at every read point is compared entry by entry with the objects of ITS namespaces (C02_Comp / C02_CompSpec.P_comp); fixed corpus of 13 such histories; failing dyn histories are shortened; win: the START WINDOW of a monitor (C02_Win): a real monitor is created on the fake cluster (CreateInformers / loadExistedObjects), the cluster is changed (1-8 operations: objects modified inside and outside what the jqFilter selects, deleted and re-created with other content, created, rarely deleted for good = trigger F26), then the monitor is started (the shared informers' own list, OnAdd with isInInitialList, and watch), in 55% of the cases nothing happens afterwards; static bindings (named / all namespaces, nameSelector, repeated entries) and namespace.labelSelector bindings (labelled and unlabelled namespaces), at an operator start and at a restart (35%: a previous monitor has followed a first part of the history and was cancelled); Snapshot() at quiescence compared entry by entry with the matching objects of the final cluster (C02_WinSpec.P_win); fixed corpus of 11 windows; hk: ONE HOOK with bindings of different types (kubernetes, schedule, kubernetesValidating, kubernetesMutating) that may share names (the configuration demands unique names within one type only; a validating and a mutating binding of one name are not generated: they share a webhook id, the recorded finding F31, C02_hook_refuted_vm), each with its own includeSnapshotsFrom and group: a real v1 configuration loaded by hook.LoadConfig, a real HookController on a fake cluster with real schedule and admission managers; several executions in one process in every order, the contexts built by the real binding controllers (Synchronization / Event, Schedule, admission events), each execution one UpdateSnapshots call; per execution and context the keys of snapshots, whose objects each list and the objects field show, compared with the binding of the TYPE and name of the context (C02_HookSpec.P_hk); systematic family (5 pairs of types x 3 ways the lists differ x 4 orders) + random hooks (1-3 kubernetes bindings, 0-4 others, 1-4 executions of 1-3 contexts) + corpus of 3; relist (C02_Relist): CHANGES SEEN THROUGH A RE-LIST: a real monitor (static bindings: named / all namespaces; 30% namespace.labelSelector bindings over labelled and unlabelled namespaces; nameSelector, repeated entries, jqFilter, keepFullObjectsInMemory) with its real client-go reflectors follows histories of watch-delivered object changes and 1-2 WATCH OUTAGES (a switch in front of the fake API server: open watches closed, resume answered 410 Gone, list 503 until the 1-10 changes inside the outage are applied - objects deleted (40%), modified inside / outside the filter, created, created and deleted, deleted and re-created), after which the reflectors list again and client-go delivers OnUpdate / OnAdd / OnDelete(DeletedFinalStateUnknown by value); every write carries a resourceVersion; Snapshot() after the outages' re-lists (40%: a read in the middle) and at the end compared entry by entry with the matching objects of the cluster as it is at that moment (C02_RelistSpec.P_rl); corpus of 7 histories, thorough: every history of <=2 steps + one outage of <=2 changes over one object (168); failing histories are shortened; non-trivial = >=3 cluster operations or >=2 contexts (relist: >=1 outage with an effective change of a matching object); distinct by input"},
 	Gen: Gen, Run: Run, Render: Render, PerShard: 400, Workers: 8, CaseTimout: 40 * time.Second,
 }
